@@ -69,6 +69,9 @@ class Run:
             self.cov["coq_build_failure"] = r.stdout[-1500:]
         for prop in props:
             vfile = os.path.join(xv.COQ, "theories/Props/%s.v" % prop)
+            if not os.path.exists(vfile):
+                self.oblige("theorem file Props/%s.v exists" % prop, False, "missing")
+                continue
             src = open(vfile).read()
             names = re.findall(r'^\s*(?:Theorem|Lemma|Corollary)\s+(\w+)', src, re.M)
             n_print = len(re.findall(r'^\s*Print Assumptions', src, re.M))
@@ -358,8 +361,462 @@ def check_c10(run):
 
 
 # =======================================================================================
+# C01 - C09: the generated decoders (shared corpus)
 
-CHECKS = {"C10": check_c10}
+import corpus as corpus_mod  # noqa: E402
+import valgen  # noqa: E402
+
+LINE_RE = re.compile(r'^REF (OK|ERR|PANIC) (.*?)(?: consumed=(\d+) wsz=(\d+))? alloc=(\d+) peak=(\d+) \| '
+                     r'VAL (OK|ERR|PANIC) (.*?)(?: wsz=(\d+))? alloc=(\d+) peak=(\d+)$')
+
+
+def parse_line(l):
+    """-> dict(ref=(kind, body, consumed, wsz, alloc), val=(kind, body, wsz, alloc)) or None"""
+    m = LINE_RE.match(l)
+    if not m:
+        return None
+    g = m.groups()
+    return {"ref": (g[0], g[1], int(g[2]) if g[2] else None, int(g[3]) if g[3] else None, int(g[4])),
+            "val": (g[6], g[7], int(g[8]) if g[8] else None, int(g[9]))}
+
+
+def spec_text(C, i):
+    return C["specs"][i][1]
+
+
+def case_replay(C, c, extra=None):
+    d = {"spec": spec_text(C, c["spec"]), "type": c["type"], "offset": c["off"],
+         "input_hex": c["input"].hex(), "observed": c["real"], "kind": c["kind"]}
+    if "expect" in c:
+        d["expected"] = c["expect"]
+    if extra:
+        d.update(extra)
+    return d
+
+
+def corpus_ties(run, C, need=("k2", "k3", "k4")):
+    """the correspondence obligations every decoder property depends on"""
+    if "k2" in need:
+        k2 = C["k2"]
+        detail = ""
+        if k2["dis"]:
+            i, key, code = k2["dis"][0]
+            detail = "spec %d (%s) code %d: %s" % (i, key, code, spec_text(C, i)[-300:])
+        run.oblige("K2: Render(Gen(real AST)) = real generate() text on %d (AST, derive) pairs" % k2["n"],
+                   not k2["dis"] and not k2["bad_header"], detail)
+    if "k3" in need:
+        k3 = C["k3"]
+        detail = ""
+        if k3["dis"]:
+            c = C["cases"][k3["dis"][0]]
+            detail = "type %s input %s real %s" % (c["type"], c["input"].hex()[:200], c["real"][:300])
+        run.oblige("K3: Sem(Gen(real AST)) = compiled decoders on %d (type, input) pairs" % k3["n"], not k3["dis"], detail)
+    if "k4" in need:
+        k4 = C["k4"]
+        run.oblige("K4: Spec.v (typing, enc, rv) = the generator's mirror on %d values" % k4["n"], not k4["dis"],
+                   str(k4["dis"][:5]))
+    run.cov["corpus_specs"] = len(C["specs"])
+    run.cov["corpus_compiled_modules"] = len(C["types"])
+    run.cov["corpus_cases"] = len(C["cases"])
+    kinds = {}
+    for c in C["cases"]:
+        kinds[c["kind"]] = kinds.get(c["kind"], 0) + 1
+    run.cov["case_kinds"] = kinds
+    if C["compile_failed"]:
+        run.cov["modules_not_compiling"] = [i for i, _ in C["compile_failed"]]
+
+
+def get_corpus(run):
+    try:
+        return corpus_mod.build(run.tier, run.seed)
+    except TieBroken as e:
+        run.oblige("corpus: harnesses build and run against /repo", False, str(e))
+        return None
+
+
+KNOWN_F1 = "F1"
+
+
+def f1_known(run, c, what):
+    run.known_hit("F1", "F1 wire_size() of an inline variable-length opaque field/arm lacks the 4-byte length "
+                        "prefix (witness: struct inner { unsigned int a; opaque data<>; } -> 8 for 12 bytes; as an "
+                        "element of 'inner items<>' the next element is read 4 bytes early)")
+
+
+def check_c01(run):
+    run.theorem_step(["C01"])
+    C = get_corpus(run)
+    if C is None:
+        return
+    corpus_ties(run, C)
+    k3bad = set(C["k3"]["dis"])
+    for n, c in enumerate(C["cases"]):
+        if c["kind"] not in ("valid", "valid_ctx"):
+            continue
+        x = c["x"]
+        run.case((c["spec"], c["type"], c["input"]),
+                 {"spec": spec_text(C, c["spec"])[-160:], "type": c["type"], "input": c["input"].hex()[:80],
+                  "observed": xv.strip_alloc(c["real"])[:160]})
+        run.count("values_step_exact" if valgen.step_exact(x) else "values_with_F1_elements")
+        p = parse_line(c["real"])
+        want = valgen.canon(x, c["off"])
+        ok = p is not None and p["ref"][0] == "OK" and p["val"][0] == "OK" and p["ref"][1] == want and p["val"][1] == want
+        if ok:
+            continue
+        if not valgen.step_exact(x) and n not in k3bad:
+            f1_known(run, c, "value")
+            run.count("F1_misdecodes")
+            continue
+        run.violation("decoding the encoding of a value of %s does not return that value" % c["type"],
+                      case_replay(C, c, {"expected_value": want}))
+
+
+def check_c02(run):
+    run.theorem_step(["C02"])
+    C = get_corpus(run)
+    if C is None:
+        return
+    corpus_ties(run, C)
+    k3bad = set(C["k3"]["dis"])
+    for n, c in enumerate(C["cases"]):
+        if c["kind"] not in ("valid", "valid_ctx"):
+            continue
+        x = c["x"]
+        e = valgen.enc(x)
+        run.case((c["spec"], c["type"], c["input"]),
+                 {"type": c["type"], "encoded_len": len(e), "observed": xv.strip_alloc(c["real"])[-60:]})
+        p = parse_line(c["real"])
+        if p is None or p["ref"][0] != "OK":
+            if not valgen.step_exact(x) and n not in k3bad:
+                f1_known(run, c, "size")
+                continue
+            run.violation("a valid encoding of %s is not decoded" % c["type"], case_replay(C, c))
+            continue
+        nf = valgen.nF1(x)
+        run.count("values_nF1_%s" % ("0" if nf == 0 else "pos"))
+        if not valgen.step_exact(x):
+            if n not in k3bad:
+                f1_known(run, c, "size")
+                continue
+        good = p["ref"][3] == len(e) and p["val"][2] == len(e) and p["ref"][2] == len(e)
+        if good:
+            continue
+        if nf > 0 and p["ref"][3] == len(e) - 4 * nf and p["ref"][2] == len(e) and n not in k3bad:
+            f1_known(run, c, "size")
+            run.count("F1_short_sizes")
+            continue
+        run.violation("wire_size()=%s, consumed=%s but the encoding of this %s has %d bytes"
+                      % (p["ref"][3], p["ref"][2], c["type"], len(e)), case_replay(C, c, {"encoded_len": len(e)}))
+
+
+def norm_views(body, off):
+    return re.sub(r'bytes@(\d+)', lambda m: "bytes@%d" % (int(m.group(1)) - off), body)
+
+
+def check_c03(run):
+    run.theorem_step(["C03"])
+    C = get_corpus(run)
+    if C is None:
+        return
+    corpus_ties(run, C)
+    k3bad = set(C["k3"]["dis"])
+    prev = None
+    for n, c in enumerate(C["cases"]):
+        l = c["real"]
+        run.case((c["spec"], c["type"], c["input"], c["off"]),
+                 {"type": c["type"], "kind": c["kind"], "input": c["input"].hex()[:64], "observed": xv.strip_alloc(l)[:140]})
+        if l.startswith("ABORT"):
+            continue   # C04's business
+        p = parse_line(l)
+        if p is None:
+            run.violation("unparsable observation", case_replay(C, c))
+            continue
+        r, v = p["ref"], p["val"]
+        if (r[0], r[1], r[3]) != (v[0], v[1], v[2]):
+            run.violation("TryFrom<&mut Bytes> and TryFrom<Bytes> disagree on the same bytes", case_replay(C, c))
+            continue
+        if c["kind"] == "valid":
+            prev = (c, p)
+        if c["kind"] == "valid_ctx" and prev is not None and prev[0]["x"] is c["x"]:
+            x = c["x"]
+            e = valgen.enc(x)
+            p0 = prev[1]
+            same = (p0["ref"][0] == r[0] and norm_views(p0["ref"][1], 0) == norm_views(r[1], c["off"])
+                    and p0["ref"][2] == r[2])
+            exact = r[0] == "OK" and r[2] == len(e)
+            if not (same and exact):
+                if not valgen.step_exact(x) and n not in k3bad:
+                    f1_known(run, c, "step")
+                    continue
+                run.violation("the result depends on the suffix / offset, or the buffer is not advanced by the "
+                              "encoded length (%d)" % len(e), case_replay(C, c, {"without_context": prev[0]["real"]}))
+
+
+def check_c04(run):
+    run.theorem_step(["C04"])
+    C = get_corpus(run)
+    if C is None:
+        return
+    corpus_ties(run, C, need=("k2", "k3"))
+    for n, c in enumerate(C["cases"]):
+        l = c["real"]
+        run.case((c["spec"], c["type"], c["input"]),
+                 {"type": c["type"], "kind": c["kind"], "input": c["input"].hex()[:64], "observed": xv.strip_alloc(l)[:100]}
+                 if c["kind"] in ("word", "prefix", "hugecount", "random") else None)
+        if l.startswith("ABORT") or "PANIC" in l:
+            run.violation("decoder of %s %s on hostile bytes" % (c["type"], "aborts the process" if l.startswith("ABORT") else "panics"),
+                          case_replay(C, c))
+    # deep optional chains: native recursion (finding F9)
+    deep_chain_probe(run)
+
+
+def deep_chain_probe(run):
+    spec = "struct node { unsigned int val; node *next; };\n"
+    try:
+        o = xv.run_front([spec], "c04_chain")[0]
+        exe, types, failed = xv.build_runner([(0, o["gen_default"]["path"], o["ast"])], "c04_chain")
+    except TieBroken as e:
+        run.oblige("deep-chain probe builds", False, str(e))
+        return
+    depths = [10, 1000, 20000, 200000] if run.tier == "quick" else [10, 1000, 20000, 100000, 200000, 1000000]
+    res = {}
+    for d in depths:
+        body = b"".join(struct.pack(">II", i & 0xffffffff, 1) for i in range(d - 1)) + struct.pack(">II", 7, 0)
+        out = xv.run_runner(exe, ["0 node 0 %s" % body.hex()], mem_limit=8 << 30, stack_limit=8 << 20)
+        res[d] = out[0][:40] if out else "?"
+        run.case(("chain", d))
+        if out and out[0].startswith("ABORT"):
+            k = [f for f in run.known["findings"] if f["id"] == "F9"]
+            if k and d >= k[0]["min_depth"]:
+                run.known_hit("F9", "F9 an optional chain of %d links (%d input bytes) overflows the native stack: "
+                                    "one stack frame per link (struct node { unsigned int val; node *next; })" % (d, len(body)))
+            else:
+                run.violation("optional chain of depth %d aborts the process" % d,
+                              {"spec": spec, "type": "node", "depth": d, "observed": out[0]})
+            break
+        if out and "PANIC" in out[0]:
+            run.violation("optional chain of depth %d panics" % d, {"spec": spec, "type": "node", "depth": d, "observed": out[0]})
+    run.cov["deep_chain_outcomes"] = {str(k): v for k, v in res.items()}
+
+
+def check_c05(run):
+    run.theorem_step(["C05"])
+    C = get_corpus(run)
+    if C is None:
+        return
+    corpus_ties(run, C)
+    k3bad = set(C["k3"]["dis"])
+    last_valid = None
+    for n, c in enumerate(C["cases"]):
+        if c["kind"] == "valid":
+            last_valid = c
+            x = c["x"]
+            # a value that sits exactly on a maximum must be accepted
+            p = parse_line(c["real"])
+            run.case((c["spec"], c["type"], c["input"], "valid"))
+            if (p is None or p["ref"][0] != "OK") and valgen.step_exact(x):
+                run.violation("a valid (possibly maximal) value of %s is rejected" % c["type"], case_replay(C, c))
+            continue
+        if c["kind"] not in ("prefix", "overmax"):
+            continue
+        run.case((c["spec"], c["type"], c["input"], c["kind"]),
+                 {"type": c["type"], "kind": c["kind"], "input": c["input"].hex()[:64], "observed": xv.strip_alloc(c["real"])[:80]})
+        run.count(c["kind"])
+        p = parse_line(c["real"])
+        ok = p is not None and p["ref"][:2] == ("ERR", "InvalidLength") and p["val"][:2] == ("ERR", "InvalidLength")
+        if ok:
+            continue
+        if c["kind"] == "prefix" and last_valid is not None and not valgen.step_exact(last_valid["x"]) and n not in k3bad:
+            f1_known(run, c, "prefix")
+            continue
+        if c["real"].startswith("ABORT") or "PANIC" in c["real"]:
+            what = "a truncated / over-long input makes the decoder panic instead of returning InvalidLength"
+        elif c["kind"] == "prefix":
+            what = "a strict prefix (%d of %d bytes) of a valid encoding is not rejected with InvalidLength" % (len(c["input"]), c.get("full", -1))
+        else:
+            what = "a count one above the declared maximum is not rejected with InvalidLength"
+        run.violation(what, case_replay(C, c))
+    # F3: the bound of a typedef'd variable-length opaque is dropped by Typedef::new
+    f3_probe(run)
+
+
+def f3_probe(run):
+    spec = "typedef opaque fh<8>;\nstruct usefh { fh h; };\n"
+    try:
+        o = xv.run_front([spec], "c05_f3")[0]
+        exe, types, failed = xv.build_runner([(0, o["gen_default"]["path"], o["ast"])], "c05_f3")
+    except TieBroken as e:
+        run.oblige("F3 probe builds", False, str(e))
+        return
+    inp = struct.pack(">I", 9) + bytes(range(9)) + b"\0\0\0"
+    out = xv.run_runner(exe, ["0 fh 0 %s" % inp.hex(), "0 fh 0 %s" % (struct.pack(">I", 8) + bytes(8)).hex()])
+    run.case(("f3", 9))
+    if "OK" in out[0]:
+        if any(f["id"] == "F3" for f in run.known["findings"]):
+            run.known_hit("F3", "F3 'typedef opaque fh<8>' accepts a 9-byte payload: Typedef::new maps every "
+                                "variable-length opaque typedef to ArrayType::None and drops the declared maximum")
+        else:
+            run.violation("typedef opaque fh<8> accepts length 9", {"spec": spec, "type": "fh", "input_hex": inp.hex(), "observed": out[0]})
+    if "OK" not in out[1]:
+        run.violation("typedef opaque fh<8> rejects length 8", {"spec": spec, "type": "fh", "observed": out[1]})
+
+
+def check_c06(run):
+    run.theorem_step(["C06"])
+    C = get_corpus(run)
+    if C is None:
+        return
+    corpus_ties(run, C)
+    k3bad = set(C["k3"]["dis"])
+    last_valid = None
+    for n, c in enumerate(C["cases"]):
+        if c["kind"] == "valid":
+            last_valid = c
+            x = c["x"]
+            if x[0] == "Union":
+                run.count("union_arms_selected")
+                run.case((c["spec"], c["type"], x[3], c["input"][:4]),
+                         {"type": c["type"], "disc": c["input"][:4].hex(), "variant": x[3], "observed": xv.strip_alloc(c["real"])[:100]})
+                p = parse_line(c["real"])
+                want = valgen.canon(x, 0)
+                if not (p and p["ref"][0] == "OK" and p["ref"][1] == want) and valgen.step_exact(x):
+                    run.violation("discriminant %s of union %s does not select the arm the specification assigns (%s)"
+                                  % (c["input"][:4].hex(), c["type"], x[3]), case_replay(C, c, {"expected_value": want}))
+            continue
+        if "expect_err" not in c or c["kind"] == "overmax":
+            continue
+        run.case((c["spec"], c["type"], c["input"], c["kind"]),
+                 {"type": c["type"], "kind": c["kind"], "at": c.get("at"), "expect": c["expect_err"], "observed": xv.strip_alloc(c["real"])[:80]})
+        run.count("reject_" + c["kind"])
+        p = parse_line(c["real"])
+        ok = p is not None and p["ref"][0] == "ERR" and p["ref"][1] == c["expect_err"] and p["val"][:2] == p["ref"][:2]
+        if ok:
+            continue
+        if last_valid is not None and not valgen.step_exact(last_valid["x"]) and n not in k3bad:
+            f1_known(run, c, "reject")
+            continue
+        run.violation("%s word at offset %s is not rejected with %s" % (c["kind"], c.get("at"), c["expect_err"]), case_replay(C, c))
+
+
+def check_c08(run):
+    run.theorem_step(["C08"])
+    C = get_corpus(run)
+    if C is None:
+        return
+    corpus_ties(run, C)
+    k3bad = set(C["k3"]["dis"])
+    for n, c in enumerate(C["cases"]):
+        l = c["real"]
+        if "bytes@" not in l:
+            continue
+        views = re.findall(r'bytes@(\w+):([0-9a-f]*)', l)
+        nonempty = [(o, h) for o, h in views if h]
+        if not nonempty:
+            continue
+        run.case((c["spec"], c["type"], c["input"], c["off"]),
+                 {"type": c["type"], "kind": c["kind"], "views": nonempty[:3], "offset": c["off"]})
+        alloc = b"\xaa" * c["off"] + c["input"]
+        for o, h in nonempty:
+            run.count("opaque_leaves")
+            if o == "OUTSIDE" or o == "E":
+                run.violation("a non-empty opaque payload of %s is not a view into the input buffer (copied)" % c["type"], case_replay(C, c))
+                break
+            o = int(o)
+            if alloc[o:o + len(h) // 2].hex() != h:
+                run.violation("an opaque payload is not at the offset where its bytes appear on the wire", case_replay(C, c))
+                break
+        if c["kind"] in ("valid", "valid_ctx"):
+            x = c["x"]
+            want = valgen.canon(x, c["off"])
+            p = parse_line(l)
+            if p and p["ref"][0] == "OK" and p["ref"][1] != want and valgen.step_exact(x):
+                run.violation("opaque payloads are not at their wire offsets", case_replay(C, c, {"expected_value": want}))
+
+
+def check_c09(run):
+    run.theorem_step(["C09"])
+    C = get_corpus(run)
+    if C is None:
+        return
+    corpus_ties(run, C, need=("k2", "k3"))
+    # linear bound with constants from the specification: every request is for data present
+    maxsize = {}
+    ntypes = {}
+    for (i, ty), sz in C["sizes"].items():
+        maxsize[i] = max(maxsize.get(i, 8), sz)
+        ntypes[i] = ntypes.get(i, 0) + 1
+    worst = (0, None)
+    for n, c in enumerate(C["cases"]):
+        l = c["real"]
+        if l.startswith("ABORT"):
+            if "alloc" in l:
+                run.violation("a length field makes the decoder request memory the allocator cannot provide", case_replay(C, c))
+            continue
+        for a, peak in xv.allocs(l):
+            bound = (len(c["input"]) + 8) * maxsize.get(c["spec"], 8) * (ntypes.get(c["spec"], 1) + 1)
+            run.evaluations += 1
+            if a > bound:
+                run.violation("decode of %d input bytes requested %d bytes from the allocator (bound %d)" % (len(c["input"]), a, bound),
+                              case_replay(C, c, {"requested": a, "bound": bound}))
+                break
+            if len(c["input"]) > 0 and a / (len(c["input"]) + 8) > worst[0]:
+                worst = (a / (len(c["input"]) + 8), n)
+        if c["kind"] in ("hugecount", "word", "overmax"):
+            run.case((c["spec"], c["type"], c["input"]),
+                     {"type": c["type"], "kind": c["kind"], "input": c["input"].hex()[:48], "requested": xv.allocs(l)})
+    run.cov["worst_bytes_requested_per_input_byte"] = round(worst[0], 2)
+    # tie: the real allocator is asked for exactly what the model's ledger says
+    k3a(run, C)
+
+
+def k3a(run, C):
+    import coqterm as ct
+    lookup = {o["index"]: o for o in C["obs"]}
+    sel = [n for n, c in enumerate(C["cases"]) if c["kind"] in ("hugecount", "word", "overmax", "valid", "random")
+           and not c["real"].startswith("ABORT")]
+    rng = random.Random(run.seed)
+    if len(sel) > (6000 if run.tier == "quick" else 60000):
+        sel = sorted(rng.sample(sel, 6000 if run.tier == "quick" else 60000))
+    by_spec = {}
+    for n in sel:
+        by_spec.setdefault(C["cases"][n]["spec"], []).append(n)
+    shards = xv.shard(list(by_spec.items()), 16)
+
+    def runit(sh_i):
+        si, sh = sh_i
+        body = ["From XdrModel Require Import Canon.", "Open Scope string_scope."]
+        evals = []
+        for k, (i, ns) in enumerate(sh):
+            sizes = ct.clist(["(%s, %d%%N)" % (ct.cstr(ty), sz) for (j, ty), sz in C["sizes"].items() if j == i])
+            rows = []
+            for n in ns:
+                c = C["cases"][n]
+                a = xv.allocs(c["real"])
+                rows.append("(%d%%N, %s, %d%%N, %s, %d%%N)" % (n, ct.cstr(c["type"]), c["off"], ct.cstr(c["input"].hex()), a[0][0]))
+            body.append("Definition a%d : ast := %s." % (k, ct.ast(lookup[i]["ast"])))
+            body.append("Definition c%d : list (N * string * N * string * N) := [%s]." % (k, ";\n".join(rows)))
+            evals.append("k3a_run a%d %s c%d" % (k, sizes, k))
+        if not evals:
+            return []
+        body.append("Eval vm_compute in ((%s)%%list)." % " ++ ".join(evals))
+        return xv.parse_nums(xv.coq_eval("k3a_%s_%d" % (run.tier, si), "\n".join(body)))
+
+    try:
+        res = [x for r in xv.par(runit, list(enumerate(shards))) for x in r]
+    except TieBroken as e:
+        run.oblige("K3a: allocator requests = model ledger", False, str(e))
+        return
+    detail = ""
+    if res:
+        c = C["cases"][res[0]]
+        detail = "type %s input %s real %s" % (c["type"], c["input"].hex()[:100], c["real"][:200])
+    run.oblige("K3a: bytes requested from the allocator = the model's reservation ledger on %d decodes" % len(sel), not res, detail)
+
+
+# =======================================================================================
+
+CHECKS = {"C01": check_c01, "C02": check_c02, "C03": check_c03, "C04": check_c04, "C05": check_c05,
+          "C06": check_c06, "C08": check_c08, "C09": check_c09, "C10": check_c10}
 
 
 def replay(pid, path):
